@@ -21,6 +21,7 @@ func VerifC13_Reset() {
 		tmpfs    bool
 	}
 	dirs := map[string]*dir{}
+	dangling := map[string]bool{}
 	var mounts []mount.Mount
 	n := sym.Choose("nmounts", 4)
 	targets := []string{"w", "work", "w/sub"} // names sharing a string prefix, and a nested one
@@ -32,9 +33,38 @@ func VerifC13_Reset() {
 		names := []string{".hidden", "deep"}
 		for c := 0; c < nc; c++ {
 			d.children[names[c]] = true
+			// the leftover may be anything, e.g. a symbolic link whose target does not exist
+			if sym.Bool("leftover_is_dangling_symlink") {
+				dangling["/"+targets[k]+"/"+names[c]] = true
+			}
 		}
 		dirs["/"+targets[k]] = d
 	}
+	lookup := func(p string) (present bool) {
+		for dn, d := range dirs {
+			for c, pr := range d.children {
+				if p == dn+"/"+c && pr {
+					return true
+				}
+			}
+		}
+		return dirs[p] != nil
+	}
+	sym.Intercept("os.Stat", func(p string) (os.FileInfo, error) { // follows links
+		if !lookup(p) || dangling[p] {
+			return nil, &fs.PathError{Op: "stat", Path: p, Err: syscall.ENOENT}
+		}
+		return fakeInfo{0644}, nil
+	})
+	sym.Intercept("os.Lstat", func(p string) (os.FileInfo, error) {
+		if !lookup(p) {
+			return nil, &fs.PathError{Op: "lstat", Path: p, Err: syscall.ENOENT}
+		}
+		if dangling[p] {
+			return fakeInfo{os.ModeSymlink | 0777}, nil
+		}
+		return fakeInfo{0644}, nil
+	})
 	openDirs := 0
 	handles := map[*os.File]string{}
 	sym.Intercept("os.Open", func(name string) (*os.File, error) {
